@@ -22,14 +22,18 @@ struct Backend {
         Backend *b = (Backend *)m->userData; b->n_malloc++;
         if (b->fail_idx.count(b->n_malloc)) { errno = ENOMEM; return 0; }
         if (n > ((size_t)1 << 32)) { errno = ENOMEM; return 0; }       // like a real allocator
-        void *p = ::malloc(n ? n : 1); if (p) { memset(p, 0xA5, n); b->live[p] = n; } return p;
+        char *raw = (char *)::malloc(n + 2 * RED); if (!raw) return 0;
+        memset(raw, 0xCB, RED); memset(raw + RED, 0xA5, n); memset(raw + RED + n, 0xCB, RED); b->live[raw + RED] = n; return raw + RED;
     }
+    enum { RED = 4352 };      // red zones around every backend block: an overrun is seen, not suffered
+    void check_redzones() { for (auto &kv : live) { const unsigned char *p = (const unsigned char *)kv.first; for (int i = 1; i <= RED; i++) if (p[-i] != 0xCB) { errors.push_back("bytes in front of a backend block were overwritten"); return; } for (size_t i = 0; i < RED; i++) if (p[kv.second + i] != 0xCB) { errors.push_back(fmt("bytes behind a backend block of %zu bytes were overwritten (offset +%zu)", kv.second, i)); return; } } }
     static void s_free(UriMemoryManager *m, void *p) {
         Backend *b = (Backend *)m->userData; b->n_free++;
         auto it = b->live.find(p); if (it == b->live.end()) { b->errors.push_back("backend free() of a pointer it never returned (or twice)"); return; }
-        memset(p, 0xDD, it->second); b->live.erase(it); ::free(p);
+        b->check_redzones();
+        memset(p, 0xDD, it->second); b->live.erase(it); ::free((char *)p - RED);
     }
-    ~Backend() { for (auto &kv : live) ::free(kv.first); }
+    ~Backend() { for (auto &kv : live) ::free((char *)kv.first - RED); }
 };
 struct Slot { bool live; size_t size; unsigned char pat; char *p; };
 
@@ -46,6 +50,7 @@ struct Machine {
             for (size_t k = 0; k < slots[i].size; k++) if (slots[i].p[k] != (char)(slots[i].pat + k * 7)) return fmt("content of live block %d damaged at offset %zu", i, k);
             for (int j = i + 1; j < MAXLIVE; j++) if (slots[j].live) { char *a = slots[i].p, *b = slots[j].p; if (a < b + (slots[j].size ? slots[j].size : 1) && b < a + (slots[i].size ? slots[i].size : 1)) return fmt("live blocks %d and %d overlap", i, j); }
         }
+        be.check_redzones();
         if (!be.errors.empty()) return be.errors[0];
         return "";
     }
